@@ -586,7 +586,30 @@ def _c02_later_import(rec):
     """implicit_defaultdict (collections), replace_sorted_heapq (heapq), the numpy rules (np) ... emit `module.name(...)` and leave the import to the later
     add_missing_imports step of the pipeline: applied alone, the result raises NameError. The monitor re-runs the result after add_missing_imports."""
     d = rec.get("detail") or {}
-    return rec.get("kind") == "step_changes_behaviour" and d.get("after_status") == "exc:NameError" and d.get("agrees_after_add_missing_imports") is True
+    if rec.get("kind") != "step_changes_behaviour" or d.get("after_status") != "exc:NameError":
+        return False
+    if d.get("agrees_after_add_missing_imports") is True:
+        return True
+    # the same, where even the later step would not help: the module name is imported inside some function of the program, which the scope-insensitive
+    # analysis of add_missing_imports takes for a binding. Recognised on the step itself: it introduces `module.attr` for a module that the text does
+    # not bind at module level
+    import collections
+
+    rule, before, after = _step(rec)
+    tb, ta = _parse(before or ""), _parse(after or "")
+    if tb is None or ta is None:
+        return False
+
+    def dotted(t):
+        return collections.Counter(n.value.id for n in ast.walk(t) if isinstance(n, ast.Attribute) and isinstance(n.value, ast.Name))
+
+    introduced = {name for name, k in dotted(ta).items() if k > dotted(tb).get(name, 0) and name in ("heapq", "collections", "np", "numpy", "pd", "pandas", "itertools", "functools", "math")}
+    top = set()
+    for st in ta.body:
+        if isinstance(st, (ast.Import, ast.ImportFrom)):
+            top |= {(a.asname or a.name).split(".")[0] for a in st.names}
+        top |= {n.id for n in ast.walk(st) if isinstance(n, ast.Name) and isinstance(n.ctx, ast.Store)} if not isinstance(st, (ast.FunctionDef, ast.AsyncFunctionDef, ast.ClassDef)) else set()
+    return bool(introduced - top)
 
 
 @classifier("defaultdict-repr-and-membership")
